@@ -20,13 +20,15 @@ RULE = (
     "constraint 0 kind x position (15 settings, constraint 1 cycled); transforms {none, variable+constraint+objective scalers, offsets-only variable scaler, constraint scaler only (thorough: also scales-only and a second set)}; "
     "tracker tolerance {1e-10, None, 0.0, 0.5}. Oracle: IEEE formulas value-lower, value-upper, max(lower-value, value-upper, 0); "
     "bound information present whenever any variable bound is finite; tracker holds the result iff all violations <= tol; for one tolerance the evaluation is repeated with the realization failing: the result without functions still reports exact bound and linear differences. "
+    "Beyond the 2x2x2 shape: spot instances with 5 variables, a non-square 3x5 linear matrix, 4 non-linear constraints, 3 weighted realizations and a batch of 3 different points, "
+    "kinds/positions rotated through the settings (12 rotations quick / 48 thorough x 3 transform sets), same oracle per row. "
     "Every case is non-trivial."
 )
 ASSUMPTIONS = [
     "dyadic values; 1e-9 relative tolerance on differences (scalers introduce rounding)",
     "with transforms the tracker tolerance is only judged for tolerances (None, 0.0, 1e-10) where user- and optimizer-domain verdicts coincide",
 ]
-BOUNDS = {"quick": "144 variable settings x 17 linear x 17 non-linear x transforms on/off", "thorough": "same x second transform set x 3 tolerances"}
+BOUNDS = {"quick": "144 variable settings x 17 linear x 17 non-linear x transforms on/off; + 36 wide spot instances (5 vars, 3x5 linear, 4 non-linear, batch of 3)", "thorough": "same x second transform set x 3 tolerances; + 144 wide spot instances"}
 
 VAR_SETTINGS = []
 for kind, positions in (("both", 5), ("lower", 3), ("upper", 3), ("none", 1)):
@@ -210,13 +212,104 @@ def judge(case: dict[str, Any]) -> Judgement:
     return j
 
 
+WIDE_V, WIDE_L, WIDE_N = 5, 3, 4
+WIDE_ROTATIONS = 12
+
+
+def judge_wide(case: dict[str, Any]) -> Judgement:
+    """Spot instances beyond the enumerated 2x2x2 shape: 5 variables, 3 linear rows (a non-square matrix), 4 non-linear
+    constraints, 3 realizations, a batch of 3 different points; the kinds and positions are rotated through the settings."""
+    from ropt.enums import EventType
+    from ropt.plan import OptimizerContext, Plan
+
+    j = Judgement()
+    rot, tr = case["rot"], case["transforms"]
+    vsets = [VAR_SETTINGS[(rot * 5 + 7 * i) % len(VAR_SETTINGS)] for i in range(WIDE_V)]
+    base = [var_case(k, p, i) for i, (k, p) in enumerate(vsets)]
+    x0 = np.array([b[0] for b in base])
+    vlb, vub = np.array([b[1] for b in base]), np.array([b[2] for b in base])
+    points = np.array([x0, x0 + np.array([0.5, -0.25, 1.0, -2.0, 0.125]), x0 - np.array([1.0, 0.5, -0.75, 0.25, 3.0])])
+    A = np.array([[1.0, 2.0, 0.0, -1.0, 0.5], [-0.5, 0.25, 4.0, 0.0, 1.0], [0.0, 0.0, 1.5, -2.0, 0.0]])
+    lin0 = A @ x0
+    lsets = [CON_SETTINGS[(rot * 3 + 5 * i + 1) % len(CON_SETTINGS)] for i in range(WIDE_L)]
+    lbnd = [con_bounds(k, p, v) for (k, p), v in zip(lsets, lin0)]
+    llb, lub = np.array([b[0] for b in lbnd]), np.array([b[1] for b in lbnd])
+    nl0 = np.array([0.75, -2.5, 6.0, -0.125])
+    nsets = [CON_SETTINGS[(rot * 4 + 3 * i + 2) % len(CON_SETTINGS)] for i in range(WIDE_N)]
+    nbnd = [con_bounds(k, p, v) for (k, p), v in zip(nsets, nl0)]
+    nlb, nub = np.array([b[0] for b in nbnd]), np.array([b[1] for b in nbnd])
+    weights = [0.5, 0.25, 0.25]
+
+    def fun(x: np.ndarray, r: int) -> list[float]:
+        # per-realization values whose weighted mean is exact: nl_k(x) = nl0_k + (k+1)*(x_k - x0_k) + (r-1)*2^-k*[r-dependent part cancels]
+        shift = (0.0, 1.0, -1.0)[r]  # weighted mean of the shift: 0.25 - 0.25 = 0
+        return [float(x.sum())] + [float(nl0[k] + (k + 1) * (x[k] - x0[k]) + shift * 2.0 ** -k) for k in range(WIDE_N)]
+
+    config = {
+        "variables": {"initial_values": x0.tolist(), "lower_bounds": vlb.tolist(), "upper_bounds": vub.tolist()},
+        "realizations": {"weights": weights},
+        "linear_constraints": {"coefficients": A.tolist(), "lower_bounds": llb.tolist(), "upper_bounds": lub.tolist()},
+        "nonlinear_constraints": {"lower_bounds": nlb.tolist(), "upper_bounds": nub.tolist()},
+    }
+    transforms = None
+    if tr == 1:
+        transforms = make_transforms(var_scales=[4.0, 0.5, 2.0, 0.25, 8.0], var_offsets=[1.0, -2.0, 0.5, 0.0, -4.0],
+                                     con_scales=[8.0, 0.25, 2.0, 0.5], obj_scales=[2.0])
+    elif tr == 2:
+        transforms = make_transforms(con_scales=[8.0, 0.25, 2.0, 0.5])
+    manager, _ = make_manager()
+    evaluator = TableEvaluator(fun, 1, WIDE_N)
+    context = OptimizerContext(evaluator=evaluator, plugin_manager=manager)
+    events: list[Any] = []
+    context.add_observer(EventType.FINISHED_EVALUATION, events.append)
+    plan = Plan(context)
+    step = plan.add_step("evaluator")
+    batch = points
+    if transforms is not None and transforms.variables is not None:
+        batch = transforms.variables.to_optimizer(points)
+    try:
+        plan.run_step(step, config=config, transforms=transforms, variables=batch)
+    except Exception as exc:  # noqa: BLE001
+        j.fail(f"wide:step-raised:{type(exc).__name__}", message=str(exc)[:200])
+        return j
+    results = events[0].data["results"]
+    if len(results) != len(points):
+        j.fail("wide:result-count", observed=len(results), expected=len(points))
+        return j
+    for row, (x, result) in enumerate(zip(points, results)):
+        info = result.constraint_info
+        nl = np.array([nl0[k] + (k + 1) * (x[k] - x0[k]) for k in range(WIDE_N)])
+        for name, value, lb, ub in (("bound", x, vlb, vub), ("linear", A @ x, llb, lub), ("nonlinear", nl, nlb, nub)):
+            got = [None if info is None else getattr(info, f"{name}_{part}") for part in ("lower", "upper", "violation")]
+            any_finite = bool(np.any(np.isfinite(lb)) or np.any(np.isfinite(ub)))
+            if any(item is None for item in got):
+                if name != "bound" or any_finite:
+                    j.fail(f"wide:{name}-info-missing", row=row, lb=lb, ub=ub)
+                continue
+            expected = [value - lb, value - ub, violation(value, lb, ub)]
+            for part, g, e in zip(("lower-diff", "upper-diff", "violation"), got, expected):
+                if not close(g, e, 1e-9):
+                    j.fail(f"wide:{name}-{part}", row=row, observed=g, expected=e, transforms=tr)
+            outside = (value < lb) | (value > ub)
+            if np.any(outside & ~(np.asarray(got[2]) > 0)):
+                j.fail(f"wide:{name}-outside-finite-bound-without-positive-violation", row=row, observed=got[2], value=value, lb=lb, ub=ub)
+    j.outcome = f"wide/rot={rot % 4}/t={tr}"
+    return j
+
+
 def shards(tier: str, seed: int) -> list[dict[str, Any]]:
-    return [{"v0": v0, "tier": tier, "seed": seed} for v0 in range(len(VAR_SETTINGS))]
+    return [{"v0": v0, "tier": tier, "seed": seed} for v0 in range(len(VAR_SETTINGS))] + [{"wide": 1, "tier": tier, "seed": seed}]
 
 
 def run_shard(shard: dict[str, Any]) -> core.ShardResult:
     rec = Recorder(shard)
     thorough = shard["tier"] == "thorough"
+    if shard.get("wide"):
+        for rot in range(WIDE_ROTATIONS * (4 if thorough else 1)):
+            for transforms in (0, 1, 2):
+                case = {"wide": 1, "rot": rot, "transforms": transforms}
+                rec.add(("wide", rot, transforms), case, judge_wide(case))
+        return rec.finish()
     for v1 in range(len(VAR_SETTINGS)):
         for lin in range(len(CON_SETTINGS)):
             for nl in range(len(CON_SETTINGS)):
@@ -232,7 +325,7 @@ def run_shard(shard: dict[str, Any]) -> core.ShardResult:
 
 
 def run_case(case: dict[str, Any]) -> Judgement:
-    return judge(case)
+    return judge_wide(case) if case.get("wide") else judge(case)
 
 
 if __name__ == "__main__":
